@@ -1423,6 +1423,12 @@ class SuccessionDiagram:
             node["expanded"] = True
             return True
 
+        # The node is about to gain successors, which invalidates any attractor
+        # data computed while it had none.
+        node["attractor_seeds"] = None
+        node["attractor_candidates"] = None
+        node["attractor_sets"] = None
+
         for m_trap in minimal_traps:
             m_id = self._ensure_node(node_id, m_trap)
             # Also expand the minimal trap space, since we know
@@ -1471,6 +1477,12 @@ class SuccessionDiagram:
 
             if node["expanded"]:
                 continue
+
+            # The node is about to gain successors, which invalidates any
+            # attractor data computed while it had none.
+            node["attractor_seeds"] = None
+            node["attractor_candidates"] = None
+            node["attractor_sets"] = None
 
             skip_edges = 0
             for m_id, m_trap in trap_with_id:
